@@ -629,6 +629,13 @@ def cls_name(c):
     return c[0] if c[1] == "-" else f"{c[0]}/{c[1]}"
 
 
+def sig_name(c):
+    """Class label used in violation signatures: complex classes with a NaN part are one label."""
+    if c[1] != "-" and "nan" in c:
+        return "nan-in-a-part"
+    return cls_name(c)
+
+
 class Minimiser:
     """Delta-minimisation of a failing abstract case.  Every step replaces one feature by its plain
     default and keeps the replacement if the case still fails in the same way (same kind, stage and
@@ -641,6 +648,7 @@ class Minimiser:
         self.bench = bench
         self.tables = tables
         self.cache = {}
+        self.known = []
 
     def rows(self, f, marker):
         return [c for c in cell_order(f["type"], table_rows(self.tables, f, marker)) if c["rep"]]
@@ -649,6 +657,54 @@ class Minimiser:
         for c in table_rows(self.tables, f, marker):
             if [c["a"], c["b"]] == cell:
                 return c["miss"] != "never"
+        return False
+
+    @staticmethod
+    def same(f, t):
+        return f["kind"] == t["kind"] and f["exc"] == t["exc"] and f["stage"] == t["stage"]
+
+    def attribute(self, a, failure):
+        """Signature of a failure.  A minimal case found earlier whose features all occur in this case
+        is tried first (one evaluation, with this case's concrete values); otherwise minimise."""
+        for small, sig, last in self.known:
+            if self.same(failure, last) and self.contained(small, last, a, failure):
+                cand = dict(copy.deepcopy(small), salt=a.get("salt"))
+                fs, _ = evaluate(self.bench, cand, self.tables)
+                f = next((x for x in fs or [] if self.same(x, last)), None)
+                if f is not None:
+                    return sig, cand, f
+        sig, small, last = self.minimise(a, failure)
+        self.known.append((small, sig, last))
+        return sig, small, last
+
+    def contained(self, small, last, a, failure):
+        if small["delim"] not in (DEF_DELIM, a["delim"]) or small["missing"] not in (DEF_MARK, a["missing"]):
+            return False
+        if small.get("producer") == "terse" and a.get("producer") != "terse":
+            return False
+        if len(small["fields"]) != 1:
+            return False
+        sf, sc, snp = small["fields"][0], small["cells"][0], small["np"][0]
+        acells = a.get("cells") or [None] * len(a["fields"])
+        anp = a.get("np") or [False] * len(a["fields"])
+        for i, f in enumerate(a["fields"]):
+            if failure["field"] is not None and failure["field"] != i:
+                continue
+            if f["type"] != sf["type"] or (sf["name"] != DEF_NAME and f["name"] != sf["name"]):
+                continue
+            if fkey(sf) != fkey(DEF_FIELD[sf["type"]]) and (fkey(f) != fkey(sf) or f["form"] != sf["form"]):
+                continue
+            if snp and not anp[i]:
+                continue
+            if sc is not None and sc != [DEF_CELL[sf["type"]]]:
+                if failure["cell"] is not None and [failure["cell"]] != sc:
+                    continue
+                have = acells[i] if acells[i] is not None else [[c["a"], c["b"]] for c in self.rows(f, a["missing"])]
+                if any(c not in have for c in sc):
+                    continue
+                if fkey(sf) == fkey(DEF_FIELD[sf["type"]]) and self.is_fill_cell(sf, sc[0], small["missing"]) != self.is_fill_cell(f, sc[0], a["missing"]):
+                    continue
+            return True
         return False
 
     def minimise(self, abstract, failure):
@@ -661,26 +717,27 @@ class Minimiser:
         cur.pop("rows", None)
 
         def matches(f):
-            t = st["target"]
-            return f["kind"] == t["kind"] and f["exc"] == t["exc"] and f["stage"] == t["stage"]
+            return self.same(f, st["target"])
 
-        def attempt(cand, relaxed=False):
-            fs, _ = evaluate(self.bench, cand, self.tables)
-            if not fs:
-                return False
-            f = next((x for x in fs if matches(x)), None)
-            if f is None and relaxed:
-                f = fs[0]
-                st["target"] = f
-            if f is None:
-                return False
-            st["cur"], st["last"] = cand, f
-            return True
-
-        def first(cands):
-            """strict pass over the candidates, then a relaxed one"""
-            cands = list(cands)
-            return any(attempt(c) for c in cands) or any(attempt(c, True) for c in cands)
+        def first(cands, relaxed=True):
+            """Adopt the first candidate that fails in the same way; if none does, the first that
+            fails in any way (its failure becomes the target).  One evaluation per candidate."""
+            fallback = None
+            for cand in cands:
+                fs, _ = evaluate(self.bench, cand, self.tables)
+                if not fs:
+                    continue
+                f = next((x for x in fs if matches(x)), None)
+                if f is not None:
+                    st["cur"], st["last"] = cand, f
+                    return True
+                if fallback is None:
+                    fallback = (cand, fs[0])
+            if relaxed and fallback is not None:
+                st["cur"], st["last"] = fallback
+                st["target"] = fallback[1]
+                return True
+            return False
 
         def edit(fn):
             c = copy.deepcopy(st["cur"])
@@ -696,30 +753,42 @@ class Minimiser:
             lead = failure["field"] if failure["field"] is not None else 0
             first(single(i) for i in [lead] + [k for k in range(nf) if k != lead])
         cur, last = st["cur"], st["last"]
-        ckey = json.dumps([cur["delim"], cur["missing"], cur["fields"], cur["cells"], cur["np"], cur.get("producer"), cur.get("salt"),
+        ckey = json.dumps([cur["delim"], cur["missing"], cur["fields"], cur["cells"], cur["np"], cur.get("producer"),
                            last["kind"], last["stage"], last["exc"], last["cell"]], sort_keys=True)
         if ckey in self.cache:
-            return self.cache[ckey]
-        # cells: the plain cell first (if it fails alone, the cell class is irrelevant)
+            sig, small, f = self.cache[ckey]
+            return sig, dict(copy.deepcopy(small), salt=cur.get("salt")), f
+        # cells: the plain cell first (if it fails alone the cell class is irrelevant), then the cell the
+        # failure names, then bisection, then single cells
         for i in range(len(st["cur"]["fields"])):
             cur, last = st["cur"], st["last"]
             f = cur["fields"][i]
             cands = [[c["a"], c["b"]] for c in self.rows(f, cur["missing"])]
             if cur["cells"][i] is not None:
                 cands = [c for c in cands if c in cur["cells"][i]]
-            pref = [DEF_CELL[f["type"]]] + ([last["cell"]] if last.get("cell") and last.get("field") == i else [])
-            cands = [c for c in pref if c in cands] + [c for c in cands if c not in pref]
 
-            def one(c, i=i):
-                return edit(lambda x: x["cells"].__setitem__(i, [c]))
+            def sub(cs, i=i):
+                return edit(lambda x: x["cells"].__setitem__(i, list(cs)))
 
-            first(one(c) for c in cands)
+            pref = [c for c in [DEF_CELL[f["type"]]] + ([last["cell"]] if last.get("cell") and last.get("field") == i else []) if c in cands]
+            if first((sub([c]) for c in pref), relaxed=False):
+                continue
+            while len(cands) > 1:
+                half = len(cands) // 2
+                if first([sub(cands[:half])], relaxed=False):
+                    cands = cands[:half]
+                elif first([sub(cands[half:])], relaxed=False):
+                    cands = cands[half:]
+                else:
+                    break
+            if len(cands) > 1:
+                first(sub([c]) for c in cands if c not in pref)
         # producer, container
         if st["cur"].get("producer") == "terse":
-            attempt(edit(lambda x: x.__setitem__("producer", "dict")))
+            first([edit(lambda x: x.__setitem__("producer", "dict"))], relaxed=False)
         for i in range(len(st["cur"]["fields"])):
             if st["cur"]["np"][i]:
-                attempt(edit(lambda x, i=i: x["np"].__setitem__(i, False)))
+                first([edit(lambda x, i=i: x["np"].__setitem__(i, False))], relaxed=False)
         # delimiter, marker
         if st["cur"]["delim"] != DEF_DELIM:
             first([edit(lambda x: x.__setitem__("delim", DEF_DELIM))])
@@ -743,7 +812,7 @@ class Minimiser:
 
                 if not first([edit(to_default)]) and f["form"] in ("native", "text") and f["type"] != "string":
                     other = "text" if f["form"] == "native" else "native"
-                    if not attempt(edit(lambda x, i=i: x["fields"][i].__setitem__("form", other))):
+                    if not first([edit(lambda x, i=i, other=other: x["fields"][i].__setitem__("form", other))], relaxed=False):
                         form_matters[i] = True
             # is the type needed?  (the same failure with a plain column of another type)
             cur = st["cur"]
@@ -794,17 +863,17 @@ class Minimiser:
             sfx = str(i + 1) if many else ""
             if fd["name"] != DEF_NAME:
                 sig["name_class" + sfx] = fd["name"]
-            if type_matters[i] or many:
+            if type_matters[i]:
                 sig["type" + sfx] = fd["type"]
             if fkey(fd) != fkey(DEF_FIELD[fd["type"]]):
-                sig["fill_class" + sfx] = cls_name([fd["fa"], fd["fb"]])
+                sig["fill_class" + sfx] = sig_name([fd["fa"], fd["fb"]])
             if form_matters[i]:
                 sig["fill_form" + sfx] = fd["form"]
             cells = cur["cells"][i]
             if cells is not None and len(cells) == 1 and self.is_fill_cell(fd, cells[0], cur["missing"]):
                 sig["cell_class" + sfx] = "equals-fill"
             elif cells is not None and len(cells) == 1 and cells[0] != DEF_CELL[fd["type"]]:
-                sig["cell_class" + sfx] = cls_name(cells[0])
+                sig["cell_class" + sfx] = sig_name(cells[0])
             if cur["np"][i]:
                 sig["container" + sfx] = "numpy"
         return self.relabel(sig, cur, f)
@@ -881,7 +950,7 @@ def abstract_of(case, producer="dict"):
 
 
 def report(chk, mini, abstract, failure, built):
-    sig, small, f = mini.minimise(abstract, failure)
+    sig, small, f = mini.attribute(abstract, failure)
     b = build(small, mini.tables)
     what = f"{sig['clause']}: "
     if f["kind"] in ("value", "missing-flag"):
